@@ -64,6 +64,14 @@ elif scenario == "recommit_same":
     LocalFileStore(internal, data).sync_paths(OrderedDict([("/p", "kold"), ("/fresh", "knew2")]))
 elif scenario == "commit_nested":
     LocalFileStore(internal, data).sync_paths(OrderedDict([("/dir/sub/q", "kold")]))
+elif scenario == "read":
+    # read operations only (a re-run that is served from the store): on a store that keeps its reads free of effects there
+    # is no crash point at all; if a read writes, a kill inside it must not damage what was committed
+    st_ = LocalFileStore(internal, data)
+    for _ in range(2):
+        assert st_.has_blob("kold") and st_.fetch_blob("kold") == "old-value"
+        assert dict(st_.fetch_paths(["/p"])) == {"/p": "kold"}
+        assert st_.fetch_blob("knew2") == "second-value" and st_.fetch_blob("absent") is None
 elif scenario == "keep":
     import dds
     sys.path.insert(0, base)
@@ -101,7 +109,7 @@ def main():
         elif len(violations) < 10:
             violations.append({"what": what})
 
-    for scenario in ("create", "store_str", "store_obj", "recommit", "recommit_same", "commit_nested", "keep"):
+    for scenario in ("create", "store_str", "store_obj", "recommit", "recommit_same", "commit_nested", "keep", "read"):
         n = 0
         while True:
             n += 1
@@ -168,7 +176,7 @@ def main():
             if n > 60:
                 break
     print(json.dumps({
-        "scope": "6 scenarios x every file-system effect boundary (makedirs / open / each half of each write / close / remove / symlink), kill -9 semantics",
+        "scope": "8 scenarios (incl. one made of read operations only) x every file-system effect boundary (makedirs / open / each half of each write / close / remove / symlink), kill -9 semantics",
         "evaluations": evals, "distinct_nontrivial": points, "exhaustive": True,
         "rule": "one case per (scenario, crash point); distinct = crash points actually reached",
         "samples": samples, "violations": violations,
